@@ -196,3 +196,15 @@ def delims_ok_before(s: "Str", n: "Int") -> "Bool":
 def delims_wellformed(s):
     """no empty tag, no missing comma, no trailing comma - judged on the non-blank characters only"""
     return delims_ok_before(s, len(s)) and last_nb(s, len(s)) != 44
+
+
+# ----------------------------------------------------------------------------- forbidden characters (C01)
+def forbidden_char(c, allow_placeholders, modern_rules):
+    """square brackets and '~' always, curly braces unless placeholders are allowed; non-printable (8.3 rules) or non-ASCII (older)"""
+    return (c == '[' or c == ']' or c == '~' or ((c == '{' or c == '}') and not allow_placeholders)
+            or ((not c.isprintable()) if modern_rules else ord(c) > 127))
+
+
+def allowed_tag_char(c, allowed):
+    """letters and digits, the listed extra characters, and ':' (clock times)"""
+    return c.isalnum() or c in allowed or c == ':'
